@@ -81,7 +81,7 @@ def axis_variants(lab_ndim, arr_ndim):
     return out
 
 
-def reference(func, arr, by, axes, labels_sorted):
+def reference(func, arr, by, axes, labels_sorted, min_count=None):
     """Slice-by-slice model.  Returns exp (kept..., G), scope (same shape) ."""
     byf = np.broadcast_to(by, arr.shape[arr.ndim - by.ndim:])
     byf = np.broadcast_to(byf, arr.shape)
@@ -103,6 +103,8 @@ def reference(func, arr, by, axes, labels_sorted):
                 continue  # absent in this slice: fill_value
             M = sub[pos][None, :]
             cnt = int((~np.isnan(M)).sum())
+            if min_count is not None and cnt < min_count:
+                continue  # fewer than min_count valid members in this slice: fill_value
             if cnt == 0:
                 scope[idx + (g,)] = False
                 continue
@@ -112,13 +114,15 @@ def reference(func, arr, by, axes, labels_sorted):
     return exp, scope
 
 
-def check_point(res, func, lab_shape, extra, lab_flat, axis, grid=None, method=None):
+def check_point(res, func, lab_shape, extra, lab_flat, axis, grid=None, method=None, min_count=None):
     import dask.array as da
 
     by = np.array(lab_flat, dtype=float).reshape(lab_shape)
     arr_shape = (2,) * extra + tuple(2 if s == 1 else s for s in lab_shape)  # size-1 label dims broadcast against size 2
     arr = values_for(arr_shape)
     kw = dict(func=func, axis=axis, fill_value=FILL)
+    if min_count is not None:
+        kw["min_count"] = min_count
     a = arr
     if grid is not None:
         a = da.from_array(arr, chunks=grid)
@@ -128,7 +132,7 @@ def check_point(res, func, lab_shape, extra, lab_flat, axis, grid=None, method=N
     res.states += 1
     res.transitions += 1
     case = dict(func=func, label_shape=list(lab_shape), extra=extra, labels=list(lab_flat), axis=axis, grid=[list(g) for g in grid] if grid else None,
-                method=method)
+                method=method, min_count=min_count)
     tags = dict(func=func, chunked=grid is not None, method=str(method), lab_ndim=len(lab_shape), extra=extra)
     size = int(np.prod(arr_shape)) * 10 + (0 if grid is None else sum(len(g) for g in grid))
     if out.kind == "refused":
@@ -156,7 +160,7 @@ def check_point(res, func, lab_shape, extra, lab_flat, axis, grid=None, method=N
     if not rm.same_labels(out.groups[0], present):
         res.violate("partial-labels", case, dict(groups=out.groups[0]), dict(groups=present), tags=dict(tags, kind="labels"), size=size)
         return
-    exp, scope = reference(func, arr, by, axes, present)
+    exp, scope = reference(func, arr, by, axes, present, min_count=min_count)
     bad = e1.compare(np.asarray(out.result), exp, scope, rtol=1e-9)
     if bad is None:
         res.outcomes["ok"] += 1
@@ -204,6 +208,8 @@ def run_shard(shard):
                     continue
                 check_point(res, func, lab_shape, extra, lt, axis)
                 res.nontrivial += 1 if uneven else 0
+                if canonical and func in ("sum", "count", "nanmax"):
+                    check_point(res, func, lab_shape, extra, lt, axis, min_count=2)  # an explicit min_count must survive partial axes
             # chunked: canonical spellings of the axis only (order/sign variants are covered eagerly)
             if not canonical or (quick and size > 4 and size < 8):
                 continue
@@ -228,5 +234,6 @@ def replay(payload):
     if isinstance(axis, list):
         axis = tuple(axis)
     grid = tuple(tuple(g) for g in c["grid"]) if c.get("grid") else None
-    check_point(res, c["func"], tuple(c["label_shape"]), c["extra"], tuple(unjson_float(c["labels"])), axis, grid=grid, method=c.get("method"))
+    check_point(res, c["func"], tuple(c["label_shape"]), c["extra"], tuple(unjson_float(c["labels"])), axis, grid=grid, method=c.get("method"),
+                min_count=c.get("min_count"))
     return res
